@@ -284,7 +284,28 @@ func handleViolation(p Prop, c *Case, out *Outcome, a WorkerArgs) (*ViolationRec
 		return nil, out2.Infra
 	}
 	if out2.V == nil || out2.V.Inv != target || out2.V.Step != out.V.Step {
-		return nil, fmt.Sprintf("nondeterminism: run %d failed with %s at step %d, re-execution gave %v", c.Run, target, out.V.Step, out2.V)
+		// The same seeded case behaved differently. If it fails the same way again within a few
+		// retries the implementation itself is order-dependent (Go map iteration, which the simulator
+		// does not own): report it, unminimised, and say so. Otherwise it is our problem (exit 2).
+		repro := 0
+		for i := 0; i < 12; i++ {
+			o3 := safeExec(p, c, a.ExecWrap)
+			if o3.Infra == "" && o3.V != nil && o3.V.Inv == target {
+				repro++
+			}
+		}
+		if repro == 0 {
+			return nil, fmt.Sprintf("nondeterminism: run %d failed with %s at step %d, re-execution gave %v", c.Run, target, out.V.Step, out2.V)
+		}
+		final := c.Clone()
+		final.Violation = out.V
+		final.Flaky = fmt.Sprintf("reproduced in %d of 13 re-executions: the outcome depends on Go map iteration order inside the implementation", repro+1)
+		path := filepath.Join(a.ReplayDir, fmt.Sprintf("%s-%d-%d.json", a.Prop, a.Seed, c.Run))
+		b, _ := json.MarshalIndent(final, "", " ")
+		if err := os.WriteFile(path, b, 0o644); err != nil {
+			return nil, "cannot write replay file: " + err.Error()
+		}
+		return &ViolationRec{Run: c.Run, Inv: out.V.Inv, Msg: out.V.Msg + " [" + final.Flaky + "]", Key: out.V.Key, Replay: path, Ops: c.NumOps(), Ops0: c.NumOps()}, ""
 	}
 	ops0 := c.NumOps()
 	execs := 0
@@ -414,6 +435,14 @@ func Replay(path string, wrap func(Prop, *Case) *Outcome) int {
 	}
 	want := c.Violation
 	out := safeExec(p, &c, wrap)
+	if c.Flaky != "" && want != nil {
+		for i := 0; i < 60 && (out.V == nil || out.V.Inv != want.Inv); i++ {
+			out = safeExec(p, &c, wrap)
+		}
+		if out.V != nil && out.V.Inv == want.Inv {
+			out.V.Step = want.Step
+		}
+	}
 	if out.Infra != "" {
 		fmt.Fprintln(os.Stderr, "INFRA:", out.Infra)
 		return 2
